@@ -59,7 +59,8 @@ Definition sx_ns (n : ns) : sx :=
     ++ (match ns_verbose n with Some k => [(k_verbose, v_int k)] | None => [] end)
     ++ (if ns_no_log_file n then [(k_no_log_file, v_bool true)] else [])
     ++ map (fun e => (fst e, v_bool (snd e))) (ns_flags n)
-    ++ map (fun e => (fst e, v_list (snd e))) (ns_poss n) in
+    ++ map (fun e => (fst e, v_list (snd e))) (ns_poss n)
+    ++ map (fun e => (fst e, match snd e with Some v => v_str v | None => v_none end)) (ns_vals n) in
   SL (map (fun e => SL [sx_str (fst e); snd e]) (sort_entries entries)).
 
 (* a namespace is compared through a 31-bit hash of its canonical encoding (the
